@@ -368,7 +368,7 @@ def track_case(draw):
     return {'n': n, 'offset': off, 'increment': inc, 'start': [draw(st.integers(3 * 10 ** 9, 4 * 10 ** 9)),
                                                                draw(boundary_fraction())],
             'accuracy': draw(st.sampled_from(['s', 'ms', 'us', 'ns'])), 'raw': draw(st.booleans()),
-            'lazy': draw(st.booleans())}
+            'lazy': draw(st.booleans()), 'wf_samples': draw(st.sampled_from([None, None, 0, 1, 4, 1000]))}
 
 
 def check_track(case, rec):
@@ -380,7 +380,10 @@ def check_track(case, rec):
     seg = {'be': False, 'interleaved': False,
            'entries': [{'path': p, 'hdr': 'full', 'type': 'f64', 'n': n,
                         'props': [['wf_start_offset', 'f64', off], ['wf_increment', 'f64', inc],
-                                  ['wf_start_time', 'ts', case['start']]]}],
+                                  ['wf_start_time', 'ts', case['start']]] + (
+                            # the other waveform properties LabVIEW writes; wf_samples is the block length, not len(channel)
+                            [['wf_samples', 'i32', case['wf_samples']], ['wf_xname', 'str', 'Time'], ['wf_xunit_string', 'str', 's']]
+                            if case.get('wf_samples') is not None else [])}],
            'active': [[p, 'f64', n]], 'nchunks': 1 if n else 0, 'data': {p: [bytes(8 * n)] if n else []}}
     data, _i, _l = encode_file({'segments': [seg]})
     opener = TdmsFile.open if case['lazy'] else TdmsFile.read
